@@ -7,6 +7,11 @@ def check(ctx):
     from rules import escapes
     escapes.check_write_methods(ctx, rep)
     nu, ni = units.check(ctx, rep)
+    from rules import hayson
+    noc = hayson.check_optional_members_complete(ctx, rep)
+    rep.floor("optional Hayson members tied to an Option field", noc, 6)
+    nrb = hayson.check_members_read_before_ok(ctx, rep)
+    rep.floor("members of tagged-object readers (must-pass before Ok)", nrb, 17)
     rep.floor("units in the generated database", nu, 430)
     rep.floor("unit identifiers", ni, 900)
     rep.note("Not decided: the float magnitude part of 'a Number keeps it' (C01/C02 gaps).")
